@@ -35,11 +35,22 @@ func Exec(line string) string {
 	if !ok {
 		return "bad-op"
 	}
+	beginOp(line)
+	defer endOp()
 	return Catch(func() string { return f(toks) })
 }
 
 // Do executes the line on the implementation, records both and returns the answer.
 func (c *Ctx) Do(line string) string {
+	if isStateOp(line) {
+		// remember what established the current state, for the watchdog's replay
+		if strings.HasPrefix(line, "trie.new") || strings.HasPrefix(line, "idx.new") || strings.HasPrefix(line, "trie.fresh") || strings.HasPrefix(line, "arr.") {
+			c.Context = c.Context[:0]
+		}
+		if len(c.Context) < 8 {
+			c.Context = append(c.Context, line)
+		}
+	}
 	ans := Exec(line)
 	c.Op(line, ans)
 	return ans
@@ -58,4 +69,13 @@ func (c *Ctx) Replay(path string) error {
 		c.Do(sc.Text())
 	}
 	return sc.Err()
+}
+
+func isStateOp(line string) bool {
+	for _, p := range []string{"trie.new", "trie.fresh", "trie.unmarshal", "trie.reload", "trie.reset", "idx.new", "arr.new", "arr.gnew", "arr.ginit", "arr.reinit", "leg.write"} {
+		if strings.HasPrefix(line, p) {
+			return true
+		}
+	}
+	return false
 }
